@@ -46,6 +46,53 @@ fn drain(clients: &[Client], quiet: Duration) -> Vec<(usize, Vec<u8>)> {
     got
 }
 
+/// Sends `bytes` from client `ci`, then a connect request (the fence) from the same socket, and collects
+/// what all clients receive until the fence's reply is back: the tracker answers one socket's datagrams
+/// in order, so whatever reply `bytes` gets has arrived by then - no waiting on the clock, no reply missed
+/// on a slow machine.  `None`: the fence itself was lost (nothing can be said).
+fn send_fenced(clients: &[Client], ci: usize, bytes: &[u8], dst: SocketAddr, fence_no: &mut i32) -> Option<Vec<(usize, Vec<u8>)>> {
+    let _ = clients[ci].sock.send_to(bytes, dst);
+    let mut got: Vec<(usize, Vec<u8>)> = Vec::new();
+    let mut buf = [0u8; 65536];
+    for attempt in 0..3 {
+        *fence_no += 1;
+        let tid = 0x7ff0_0000 + *fence_no;
+        let mut f = Vec::new();
+        Request::Connect(ConnectRequest { transaction_id: TransactionId::new(tid) }).write_bytes(&mut f).unwrap();
+        let _ = clients[ci].sock.send_to(&f, dst);
+        let t0 = Instant::now();
+        while t0.elapsed() < Duration::from_millis(1500) {
+            let mut any = false;
+            for (i, c) in clients.iter().enumerate() {
+                while let Ok((n, _)) = c.sock.recv_from(&mut buf) {
+                    any = true;
+                    let b = buf[..n].to_vec();
+                    // a fence reply (this one or an earlier, late one) is not part of the observation
+                    let is_fence = n == 16 && b[0..4] == [0, 0, 0, 0] && i32::from_be_bytes([b[4], b[5], b[6], b[7]]) >= 0x7ff0_0000;
+                    if is_fence {
+                        if i == ci && i32::from_be_bytes([b[4], b[5], b[6], b[7]]) == tid {
+                            // everything addressed to other sockets by now has been sent before the fence reply; one short look
+                            for (j, c2) in clients.iter().enumerate() {
+                                while let Ok((m, _)) = c2.sock.recv_from(&mut buf) {
+                                    let b2 = buf[..m].to_vec();
+                                    let f2 = m == 16 && b2[0..4] == [0, 0, 0, 0] && i32::from_be_bytes([b2[4], b2[5], b2[6], b2[7]]) >= 0x7ff0_0000;
+                                    if !f2 { got.push((j, b2)); }
+                                }
+                            }
+                            return Some(got);
+                        }
+                    } else {
+                        got.push((i, b));
+                    }
+                }
+            }
+            if !any { std::thread::sleep(Duration::from_millis(1)); }
+        }
+        let _ = attempt;
+    }
+    None
+}
+
 fn hash_of(i: u8) -> [u8; 20] {
     let mut h = [0x11u8; 20];
     h[0] = i;
@@ -109,6 +156,7 @@ pub fn run(out: &mut impl Write, seed: u64, cases: usize, _replay: &str, uring_r
             if !drain(&clients, Duration::from_millis(40)).is_empty() { up = true; break; }
         }
         if !up { writeln!(out, "net START-FAILED no-answer-to-connect").unwrap(); server.stop(); continue; }
+        let mut fence_no: i32 = 0;
         let _ = drain(&clients, Duration::from_millis(60));
         if boundary {
             // fill one IPv6 swarm with max_peers + 1 peers (distinct announced ports), then ask for all
@@ -132,14 +180,18 @@ pub fn run(out: &mut impl Write, seed: u64, cases: usize, _replay: &str, uring_r
                 }).write_bytes(&mut bytes).unwrap();
                 bytes
             };
+            // every filler announce is confirmed (fenced; repeated if its reply did not come): the swarm really holds max_peers peers
+            let mut filled = true;
             for p in 0..(max_peers as u16) {
-                let _ = clients[ci].sock.send_to(&mk_ann(10000 + p, 1), dst);
-                if p % 16 == 15 { let _ = drain(&clients, Duration::from_millis(8)); }
+                let mut ok = false;
+                for _ in 0..3 {
+                    if let Some(g) = send_fenced(&clients, ci, &mk_ann(10000 + p, 1), dst, &mut fence_no) { if !g.is_empty() { ok = true; break; } }
+                }
+                if !ok { filled = false; break; }
             }
-            let _ = drain(&clients, Duration::from_millis(80));
+            if !filled { server.stop(); continue; }   // no observation possible on this machine right now
             let bytes = mk_ann(9999, i32::MAX);
-            let _ = clients[ci].sock.send_to(&bytes, dst);
-            let got = drain(&clients, Duration::from_millis(150));
+            let Some(got) = send_fenced(&clients, ci, &bytes, dst, &mut fence_no) else { server.stop(); continue; };
             let replies = if got.is_empty() { "-".to_string() } else { got.iter().map(|(i, b)| format!("{}:{}", i, hex(b))).collect::<Vec<_>>().join(";") };
             writeln!(out, "big {} {} {} => {}", ci, ip_hex(clients[ci].ip), max_peers, replies).unwrap();
             server.stop();
@@ -208,8 +260,7 @@ pub fn run(out: &mut impl Write, seed: u64, cases: usize, _replay: &str, uring_r
                 }
             }
             if bytes.is_empty() { bytes.push(0); }
-            let _ = clients[ci].sock.send_to(&bytes, dst);
-            let got = drain(&clients, Duration::from_millis(if backend == "uring" { 60 } else { 45 }));
+            let Some(got) = send_fenced(&clients, ci, &bytes, dst, &mut fence_no) else { continue; };
             // learn the connection id from a connect reply to this client
             for (i, b) in &got {
                 if *i == ci {
